@@ -141,9 +141,187 @@ def _restyle(fn, args, kwargs):
     return None
 
 
-def lib(fn, *args, **kwargs):
-    """Call library code; *any* exception is captured (it is an observable behaviour of
-    the library, to be judged by the oracle), never confused with a harness bug."""
+# --- exception safety: a call that fails must leave nothing behind -------------------------------------------------------
+# For a deterministic share of the calls a *failing* variant of the same call is made first (its outcome is ignored): the
+# same arguments with one of them made invalid in a way the library documents or numpy enforces.  A library that cleans up
+# only on the success path (state restored after the loop, cache key written before validation ...) then answers the
+# judged call from what the failed call left behind.
+FAULTS = os.environ.get("VERIF_FAULTS", "1") != "0"
+FAULT_COUNTS = collections.Counter()
+
+
+class _Boom(Exception):
+    pass
+
+
+def _raiser(*a, **k):
+    raise _Boom("callable supplied by the caller raises")
+
+
+def _graph_size(bound):
+    import numpy as np
+    for v in bound.values():
+        if isinstance(v, np.ndarray) and v.ndim == 2:
+            return v.shape[0]
+    return None
+
+
+def _poisoned(qual, bound, key):
+    """-> dict of arguments for a variant of the call that should fail, or None."""
+    import numpy as np
+    b = dict(bound)
+    p = _graph_size(bound)
+    pick = (key // 8) % 3
+    if qual == "LGANM.sample":
+        names = [n for n in ("do_interventions", "shift_interventions", "noise_interventions") if b.get(n)]
+        if names and pick != 2:
+            n = names[pick % len(names)]
+            b[n] = dict(list(b[n].items()) + [(10 ** 6, (0, 1))])          # valid entries first, then a target outside the model
+            return b
+        if not b.get("population"):
+            b["n"] = -3
+            return b
+        b["do_interventions"] = dict(list((b.get("do_interventions") or {}).items()) + [(10 ** 6, "bad")])
+        return b
+    if qual == "ANM.sample":
+        names = [n for n in ("do_interventions", "noise_interventions", "shift_interventions") if b.get(n)]
+        n = names[pick % len(names)] if names else "do_interventions"
+        d = dict(b.get(n) or {})
+        d[max(list(d) + [0])] = _raiser                                    # the last of the caller's callables raises
+        b[n] = d
+        return b
+    if qual == "NormalDistribution.conditional":
+        x = b.get("x")
+        if isinstance(x, (list, tuple, np.ndarray)) and len(x):
+            b["x"] = list(x) + [0.0]                                       # one value too many: documented ValueError
+            if pick == 1:
+                b["X"] = list(reversed([int(v) for v in np.atleast_1d(b["X"])]))
+            return b
+        return None
+    if qual in ("NormalDistribution.sample", "DRFNet.sample"):
+        b["n"] = -3
+        return b
+    if qual in ("NormalDistribution.regress", "NormalDistribution.mse"):
+        b["Xs"] = [int(v) for v in np.atleast_1d(b["Xs"])] + [10 ** 6]
+        return b
+    if qual == "separates" and p is not None:
+        b["A"] = set(b["A"]) | {p + 3}
+        return b
+    if qual in ("induced_subgraph", "is_clique") and p is not None:
+        b["S"] = set(b["S"]) | {p + 4}
+        return b
+    if qual in ("pa", "ch", "neighbors", "adj", "ancestors", "descendants", "an", "desc", "chain_component") and p is not None:
+        b["i"] = p + 3
+        return b
+    if qual == "semi_directed_paths" and p is not None:
+        b["to"] = p + 3
+        return b
+    if qual in ("imec", "dag_to_icpdag", "pdag_to_icpdag") and p is not None:
+        b["I"] = set(b["I"]) | {p + 3}
+        return b
+    if qual == "is_consistent_extension":
+        G = np.asarray(b["G"])
+        if G.ndim == 2 and G.shape[0] >= 2:
+            bad = G.copy()
+            bad[0, 1] = bad[1, 0] = 1                                      # not a DAG: documented ValueError
+            b["G"] = bad
+            return b
+        return None
+    if qual in ("add_edges", "remove_edges"):
+        b["no_edges"] = 10 ** 9
+        return b
+    if qual in ("dag_full", "dag_avg_deg"):
+        b["p"] = float(b["p"]) + 0.5
+        return b
+    if qual == "intervention_targets":
+        b["size"] = (1, 2, 3)                                              # documented ValueError
+        return b
+    if qual == "split_data":
+        b["ratios"] = [float("nan")] if pick else [0.5, 0.6]
+        return b
+    return None
+
+
+def _fault_first(fn, qual, sig, args, kwargs, key):
+    if not FAULTS or key % 8 != 5:
+        return
+    names = [n for n, _ in sig]
+    bound = dict(zip(names, args))
+    bound.update(kwargs)
+    try:
+        bad = _poisoned(qual, bound, key)
+    except Exception:                    # noqa: BLE001 - arguments of an unexpected form: no fault is injected
+        return
+    if bad is None:
+        return
+    FAULT_COUNTS["failing_call_first"] += 1
+    try:
+        fn(**bad)
+    except BaseException as e:           # noqa: BLE001 - whatever the failing call does is not judged
+        if isinstance(e, (KeyboardInterrupt, SystemExit)):
+            raise
+
+
+# --- ambient state --------------------------------------------------------------------------------------------------------
+# Print options never matter; floating-point error handling and the warning filter must not matter for code that does no
+# floating-point arithmetic of its own (graph utilities, target sampling).
+STRICT_FP = {"is_dag", "topological_ordering", "transitive_closure", "ancestors", "descendants", "an", "desc", "pa", "ch",
+             "neighbors", "adj", "na", "semi_directed_paths", "separates", "chain_component", "induced_subgraph", "is_clique",
+             "vstructures", "moral_graph", "degrees", "skeleton", "only_directed", "only_undirected", "undirected_edges",
+             "directed_edges", "edge_weights", "is_complete", "mec", "imec", "all_dags", "is_consistent_extension",
+             "has_consistent_extension", "pdag_to_cpdag", "dag_to_cpdag", "pdag_to_dag", "maximally_orient", "pdag_to_icpdag",
+             "dag_to_icpdag", "add_edges", "remove_edges", "intervention_targets", "split_data"}
+AMBIENT = os.environ.get("VERIF_AMBIENT", "1") != "0"
+
+
+class _Ambient:
+    def __init__(self, qual, key):
+        self.mode = None
+        if AMBIENT and qual is not None:
+            if key % 5 == 0:
+                self.mode = "print"
+            elif key % 5 == 1 and qual in STRICT_FP:
+                self.mode = "strict"
+
+    def __enter__(self):
+        import numpy as np
+        if self.mode == "print":
+            self.saved = np.get_printoptions()
+            np.set_printoptions(threshold=5, edgeitems=1, precision=2)
+        elif self.mode == "strict":
+            import warnings
+            self.err = np.seterr(divide="raise", invalid="raise", over="raise")
+            self.cw = warnings.catch_warnings()
+            self.cw.__enter__()
+            warnings.simplefilter("error")
+        return self
+
+    def __exit__(self, *exc):
+        import numpy as np
+        if self.mode == "print":
+            np.set_printoptions(**self.saved)
+        elif self.mode == "strict":
+            self.cw.__exit__(*exc)
+            np.seterr(**self.err)
+        return False
+
+
+# --- results the caller still holds ---------------------------------------------------------------------------------------
+_HELD = collections.deque(maxlen=3)
+
+
+def _arrays_in(v, depth=0):
+    import numpy as np
+    if isinstance(v, np.ndarray):
+        return [v] if v.dtype != object and 0 < v.nbytes <= (1 << 20) else []
+    if isinstance(v, (tuple, list)) and depth < 2 and len(v) <= 16:
+        return [a for x in v for a in _arrays_in(x, depth + 1)]
+    if depth == 0 and hasattr(v, "mean") and hasattr(v, "covariance"):
+        return _arrays_in(getattr(v, "mean"), 1) + _arrays_in(getattr(v, "covariance"), 1)
+    return []
+
+
+def _invoke(fn, args, kwargs):
     alt = _restyle(fn, args, kwargs)
     if alt is not None:
         try:
@@ -163,6 +341,34 @@ def lib(fn, *args, **kwargs):
         return Outcome(False, exc=e)
     except Exception as e:           # noqa: BLE001 - deliberate: judged by the caller
         return Outcome(False, exc=e)
+
+
+def lib(fn, *args, **kwargs):
+    """Call library code; *any* exception is captured (it is an observable behaviour of
+    the library, to be judged by the oracle), never confused with a harness bug."""
+    if not getattr(fn, "__module__", "").startswith("sempler"):
+        return _invoke(fn, args, kwargs)
+    qual = getattr(fn, "__qualname__", "")
+    sig = DOC_SIGNATURES.get(qual)
+    key = 0
+    if sig is not None and len(args) <= len(sig) and all(k in dict(sig) for k in kwargs):
+        key = sum((n + 1) * _fp(a) for n, a in enumerate(args)) + sum(_fp(v) + len(k) for k, v in kwargs.items()) + len(qual)
+        _fault_first(fn, qual, sig, args, kwargs, key)
+    else:
+        qual = None
+    # arrays handed out by the last few calls, as the caller has them now (it may have overwritten them - they are its own)
+    held = [(a, a.tobytes(), q) for (a, q) in _HELD]
+    with _Ambient(qual, key):
+        out = _invoke(fn, args, kwargs)
+    for a, was, q in held:
+        if a.tobytes() != was:
+            raise Violation("earlier_result_changed", "an array returned by an earlier call (%s) changed during a later call to %s: "
+                            "results handed to the caller share storage with the library or with each other"
+                            % (q, getattr(fn, "__qualname__", fn)))
+    if out.ok:
+        for a in _arrays_in(out.value):
+            _HELD.append((a, getattr(fn, "__qualname__", "?")))
+    return out
 
 
 def must(outcome, what):
